@@ -320,3 +320,23 @@ Proof.
   unfold objective. cbn [init fst grid placed]. rewrite count_nz_zeros, count_true_repeat_false.
   destruct (cK cf =? 0); lia.
 Qed.
+
+(* C01: shape and provenance of every reachable grid value *)
+Theorem reachable_grid_values cf bl acts s' ts i j :
+  3 <= cR cf -> 3 <= cC cf -> 0 <= cN cf -> blocks_ok (cN cf) bl ->
+  Forall (in_space cf) acts -> run cf (fst (init cf bl)) acts = (s', ts) ->
+  0 <= i < cR cf -> 0 <= j < cC cf ->
+  shape (cR cf) (cC cf) (grid s') /\
+  (cell (grid s') i j = 0 \/ exists b i' j', 0 <= b < cN cf /\ 0 <= i' < 3 /\ 0 <= j' < 3 /\ cell (grid s') i j = cell (znth [] (blocks s') b) i' j').
+Proof.
+  intros HR HC HN BO FA H Hi Hj.
+  destruct (run_invariants cf acts _ _ _ (init_StateOK cf bl HR HC HN BO) (ex_intro _ [] (init_Feasible cf bl HN)) FA H) as (OK & [ps F] & EB).
+  split; [exact (ok_shape cf s' OK)|].
+  destruct (Z.eq_dec (cell (grid s') i j) 0) as [E|NE]; [left; exact E|right].
+  destruct (feasible_cell cf _ _ _ ps i j F Hi Hj NE) as (a & Hin & IS & _ & PC & _).
+  destruct a as [[[b k] r] c]. pose proof IS as (Hb & _).
+  assert (B3 : is3x3 (znth [] (blocks s') b) = true) by (apply (blocks_ok_nth (cN cf)); [exact (ok_blocks cf s' OK) | exact Hb]).
+  assert (NZ : pcell (blocks s') (b, k, r, c) i j <> 0) by (rewrite PC; exact NE).
+  destruct (pcell_value_of_block (blocks s') (b, k, r, c) i j B3 NZ) as (i' & j' & Hi' & Hj' & E).
+  exists b, i', j'. rewrite <- PC. auto.
+Qed.
